@@ -116,4 +116,73 @@ def finishS (f : Bytes → Bytes) (s : StS) : Bytes :=
 def runS (m : Nat) (f : Bytes → Bytes) (script : List Nat) (chunks : List Bytes) : Bytes :=
   finishS f (chunks.foldl (writeS m f) ⟨[], [], script⟩)
 
+/-! ## `flush` in the op alphabet; writers as call transducers
+
+A call on an `io::Write` is `some bytes` (= `write_all(bytes)`; for `MappedWrite` and `TeeWrite`, whose `write` always
+takes the whole buffer, the same as one `write(bytes)`) or `none` (= `flush()`). A writer that wraps other writers is
+modelled by **the calls it makes on them**, in order, so that compositions (`tee` into `mapped`, `mapped` into `tee`,
+`mapped` of `mapped`) are compositions of these functions, and a target at the bottom (a `Vec`, a short-writing
+scripted writer) is described by the calls it has received.
+
+* `MappedWrite::flush`: `match self.inner { Some(ref mut inner) => inner.flush(), None => Ok(()) }` — the pending
+  `buffer` is **kept** (nothing is mapped, nothing is handed to the inner writer), the flush is forwarded.
+* `TeeWrite::flush`: `self.inner_a.flush()?; self.inner_b.flush()` — forwarded to both.
+* drop order of `mapped(inner, ..)`: `Drop for MappedWrite` hands the non-empty remainder to `inner`, then the field
+  `inner` is dropped (so an inner `MappedWrite` emits its own remainder after that). -/
+
+/-- a `MappedWrite` seen from outside: its pending buffer and the calls it has made on its inner writer -/
+structure StT where
+  buf : Bytes
+  calls : List (Option Bytes)
+deriving DecidableEq, Repr
+
+def stepByteT (m : Nat) (f : Bytes → Bytes) (s : StT) (b : Nat) : StT :=
+  if b = m then { buf := [], calls := s.calls ++ [some (f (s.buf ++ [b]))] } else { s with buf := s.buf ++ [b] }
+
+/-- one call on a `MappedWrite`: `write(chunk)` or `flush()` -/
+def callT (m : Nat) (f : Bytes → Bytes) (s : StT) : Option Bytes → StT
+  | some chunk => chunk.foldl (stepByteT m f) s
+  | none => { s with calls := s.calls ++ [none] }
+
+/-- drop / `unwrap`: the remainder goes to the inner writer only when it is non-empty -/
+def dropT (f : Bytes → Bytes) (s : StT) : List (Option Bytes) :=
+  if s.buf.isEmpty then s.calls else s.calls ++ [some (f s.buf)]
+
+/-- every call the inner writer of `mapped(inner, m, f)` receives while the mapped writer is given `ops` and then
+dropped / unwrapped -/
+def mappedCalls (m : Nat) (f : Bytes → Bytes) (ops : List (Option Bytes)) : List (Option Bytes) :=
+  dropT f (ops.foldl (callT m f) ⟨[], []⟩)
+
+/-- the calls the two targets of `tee(a, b)` receive: `write(chunk)` = `a.write_all(chunk); b.write_all(chunk)`,
+`flush()` = `a.flush(); b.flush()` — each target sees the tee's own call sequence -/
+def teeCalls (ops : List (Option Bytes)) : List (Option Bytes) × List (Option Bytes) := (ops, ops)
+
+/-- what a `Vec<u8>` holds after these calls -/
+def sinkContent : List (Option Bytes) → Bytes
+  | [] => []
+  | some bytes :: rest => bytes ++ sinkContent rest
+  | none :: rest => sinkContent rest
+
+/-- how many `flush()` calls a target has received -/
+def sinkFlushes : List (Option Bytes) → Nat
+  | [] => 0
+  | some _ :: rest => sinkFlushes rest
+  | none :: rest => sinkFlushes rest + 1
+
+/-- what a scripted (short-writing / interrupted) target holds after these calls; its `flush` is `Ok(())` and does not
+consume a script entry -/
+def sinkRunS : List Nat → Bytes → List (Option Bytes) → Bytes
+  | _, got, [] => got
+  | script, got, some bytes :: rest => sinkRunS (writeAll script got bytes).2 (writeAll script got bytes).1 rest
+  | script, got, none :: rest => sinkRunS script got rest
+
+/-- **Not the code**: a `flush` that first maps and emits the pending (not yet marker-terminated) buffer, then forwards
+the flush. Used only by the counterexample `C19.emitting_flush_violates_spec` (the statement about flushes discriminates). -/
+def callTEmitting (m : Nat) (f : Bytes → Bytes) (s : StT) : Option Bytes → StT
+  | some chunk => chunk.foldl (stepByteT m f) s
+  | none => { buf := [], calls := dropT f s ++ [none] }
+
+def mappedCallsEmitting (m : Nat) (f : Bytes → Bytes) (ops : List (Option Bytes)) : List (Option Bytes) :=
+  dropT f (ops.foldl (callTEmitting m f) ⟨[], []⟩)
+
 end CnbVerif.MW
